@@ -157,6 +157,10 @@ def op_table():
     add("read metadata", lambda d: d["metadata"])
     add('metadata[k2]="v2"', lambda d: d["metadata"].__setitem__("k2", "v2"))
     add('metadata[__note__]="hidden"', lambda d: d["metadata"].__setitem__("__note__", "hidden"))
+    # hidden keys are any keys of the form __name__, not only __lowercaseletters__
+    add('set __layer_id__=42', setk("__layer_id__", 42))
+    add('set __ID2__="x"', setk("__ID2__", "x"))
+    add('metadata[__Checked_By__]="qa"', lambda d: d["metadata"].__setitem__("__Checked_By__", "qa"))
     add("update metadata with __delete__ False", lambda d: mappyfile.update(d, {"metadata": {"__delete__": False, "k3": "v3"}}))
     add('config[MS_ERRORFILE]="stderr"', lambda d: d["config"].__setitem__("MS_ERRORFILE", "stderr"))
     add('legend[status]="ON"', lambda d: d["legend"].__setitem__("status", "ON"))
@@ -175,7 +179,7 @@ def op_table():
     return ops
 
 
-N_OPS_SHARD = 36   # one unit per (initial dict, first op)
+N_OPS_SHARD = 39   # one unit per (initial dict, first op)
 
 
 def applicable(initial_type, name):
